@@ -7,6 +7,9 @@ outputs of the hinted design (`h`), of the twin (`t`) and, for class `autonomous
 
 PROPFAIL = the hinted design differs from the reference twin in a cycle in which the property demands equality
            (every cycle; class `feedforward`: from the cycle the pipeline has filled).
+           Nothing the implementation reports widens what is accepted: the lag twin (`l`) is built with the lag derived from the recipe
+           (hints behind the combining step) and the measured register count is only compared with it; the reset-edge behaviour is accepted
+           only in class `resetedge` and only if the hinted design equals, in every cycle, the prediction design (`p`) built from the recipe.
 DIFF     = the model's `latency` (GateryModel/C06/Model.lean, applied to the unfolded dump) disagrees with the stage count the
            group reports / with the twin's latency, or the real code rejected a design of a shape it is documented to handle.
 -/
@@ -46,6 +49,9 @@ structure Case where
   h : Array (Array String) := #[]
   t : Array (Array String) := #[]
   l : Array (Array String) := #[]
+  p : Array (Array String) := #[]       -- class resetedge: explicit-register design predicted from the recipe and the twin's power-on value
+  lagsMeasured : String := "-"
+  lagsDerived : String := "-"
 
 structure Stats where
   cases : Nat := 0
@@ -61,7 +67,9 @@ structure Stats where
   latchCases : Nat := 0
   lagChecked : Nat := 0
   lagVisible : Nat := 0      -- autonomous cases in which the official twin differs (finding)
-  resetEdgeCases : Nat := 0  -- cases with a mismatch explained by registers without reset value sampling during reset
+  resetEdgeCases : Nat := 0  -- class resetedge: cases that differ from the twin exactly as the prediction design says (known finding)
+  predChecked : Nat := 0     -- class resetedge: designs compared cycle by cycle with the prediction design
+  lagStructChecked : Nat := 0 -- counters whose measured register count was compared with the recipe-derived lag
   hints : Nat := 0
   undefRefined : Nat := 0
   cls : Std.HashMap String Nat := {}
@@ -185,48 +193,74 @@ def finishCase (c : Case) (st0 : Stats) : IO Stats := do
     if en && !(c.reset == "sync" && cyc == 0) then cnt := cnt + 1
   st := { st with cycles := st.cycles + ncyc }
   let maxN (dep : Nat) : Nat := maxOver ((List.range ngrp).filter (fun g => (dep >>> g) % 2 == 1) |>.map nOf)
-  let resetEdge := c.reset == "sync" && c.unreset
   let mut firstBad : Option String := none      -- mismatch the property forbids
-  let mut firstResetEdge : Option String := none -- mismatch before the pipeline has filled in a design in which registers without reset value sample during reset
   let mut lagBad : Option String := none
+  let mut predBad : Option String := none
+  let havePred := c.cls == "resetedge" && c.p.size == ncyc
   for cyc in [0:ncyc] do
     for j in [0:c.outs.size] do
       let o := c.outs[j]!
       let a := (c.h[cyc]!).getD j "?"; let b := (c.t[cyc]!).getD j "?"
-      let filled := maxN o.dep + o.ureg
       -- "from the cycle the pipeline has filled when the region contains feed-forward registers"
       -- (filled = all register levels on the paths to this output hold values derived from inputs: `Ckt.depth ≤ cnt`)
       let thr := if o.ffd > 0 then maxN o.dep + o.ureg else 0
       if cnts[cyc]! >= thr then
         st := { st with ops := st.ops + 1 }
         if a != b && refines a b then st := { st with undefRefined := st.undefRefined + 1 }
-        if !refines a b then
-          let msg := s!"cycle={cyc} out={j} hinted={a} twin={b} enabled_edges={cnts[cyc]!} stages={c.stages.toList} stim={(c.stim[cyc]!).toList}"
-          if resetEdge && cnts[cyc]! < filled then
-            if firstResetEdge.isNone then firstResetEdge := some msg
-          else if firstBad.isNone then firstBad := some msg
+        if !refines a b && firstBad.isNone then
+          firstBad := some s!"cycle={cyc} out={j} hinted={a} twin={b} enabled_edges={cnts[cyc]!} stages={c.stages.toList} stim={(c.stim[cyc]!).toList}"
       if c.cls == "autonomous" && c.l.size == ncyc then
         let l := (c.l[cyc]!).getD j "?"
         st := { st with ops := st.ops + 1 }
-        if !refines a l && !(resetEdge && cnts[cyc]! < filled) && lagBad.isNone then
-          lagBad := some s!"cycle={cyc} out={j} hinted={a} lagtwin={l} enabled_edges={cnts[cyc]!} stages={c.stages.toList}"
+        if !refines a l && lagBad.isNone then
+          lagBad := some s!"cycle={cyc} out={j} hinted={a} lagtwin={l} enabled_edges={cnts[cyc]!} stages={c.stages.toList} derived_lags={c.lagsDerived} measured={c.lagsMeasured}"
+      if havePred then
+        let q := (c.p[cyc]!).getD j "?"
+        st := { st with ops := st.ops + 1 }
+        if a != q && predBad.isNone then
+          predBad := some s!"cycle={cyc} out={j} hinted={a} predicted={q} twin={b} enabled_edges={cnts[cyc]!} stages={c.stages.toList}"
   if c.cls == "autonomous" then
     let haveLag := c.l.size == ncyc
     if haveLag then st := { st with lagChecked := st.lagChecked + 1 }
+    -- structure: where the counter is visible, the register count between it and the outputs must be the recipe-derived lag
+    let meas := if c.lagsMeasured == "-" then [] else c.lagsMeasured.splitOn ","
+    let der := if c.lagsDerived == "-" then [] else c.lagsDerived.splitOn ","
+    let mut structOk := true
+    for m in meas do
+      match m.splitOn ":" with
+      | [step, v] =>
+        if v != "-1" then
+          st := { st with lagStructChecked := st.lagStructChecked + 1 }
+          if !der.contains (step ++ ":" ++ v) then
+            structOk := false
+            fail "DIFF" s!"what=lag-structure counter_step={step} measured_registers={v} derived_lags={c.lagsDerived}"
+            fail "PROPFAIL" s!"what=lag-structure counter_step={step} measured_registers={v} derived_lags={c.lagsDerived} stages={c.stages.toList}"
+            st := { st with diffs := st.diffs + 1, propfails := st.propfails + 1 }
+      | _ => pure ()
     if let some m := lagBad then
       fail "PROPFAIL" s!"what=lagtwin {m}"
       st := { st with propfails := st.propfails + 1 }
     if let some m := firstBad then
       st := { st with lagVisible := st.lagVisible + 1 }
-      -- explained by the state lag iff the lag twin matches
-      fail "PROPFAIL" s!"what={if lagBad.isNone && haveLag then "autonomous-state-lag" else "autonomous-unexplained"} {m}"
+      -- the known finding: explained by the state lag iff the twin with the recipe-derived lag matches and the structure agrees with it
+      fail "PROPFAIL" s!"what={if lagBad.isNone && haveLag && structOk then "autonomous-state-lag" else "autonomous-unexplained"} {m}"
+      st := { st with propfails := st.propfails + 1 }
+  else if c.cls == "resetedge" then
+    if havePred then st := { st with predChecked := st.predChecked + 1 }
+    if let some m := predBad then
+      fail "PROPFAIL" s!"what=reset-edge-prediction {m}"
+      st := { st with propfails := st.propfails + 1 }
+    if let some m := firstBad then
+      -- the known finding, concretely: registers stand at the pipestages, reset value = power-on value of their input if any bit of it is
+      -- defined; accepted only if the hinted design equals that prediction in every cycle, the clock has a synchronous reset, a register
+      -- without reset value exists and the reset edge was enabled
+      let edge0 := c.enPins.all fun p => (c.stim[0]!).getD p "1" == "1"
+      let known := havePred && predBad.isNone && c.reset == "sync" && c.unreset && edge0
+      if known then st := { st with resetEdgeCases := st.resetEdgeCases + 1 }
+      fail "PROPFAIL" s!"what={if known then "reset-edge-sampling" else "differs-from-twin"} {m}"
       st := { st with propfails := st.propfails + 1 }
   else if let some m := firstBad then
     fail "PROPFAIL" s!"what=differs-from-twin {m}"
-    st := { st with propfails := st.propfails + 1 }
-  if let some m := firstResetEdge then
-    st := { st with resetEdgeCases := st.resetEdgeCases + 1 }
-    fail "PROPFAIL" s!"what=reset-edge-sampling {m}"
     st := { st with propfails := st.propfails + 1 }
   return st
 
@@ -262,7 +296,9 @@ partial def loop (h : IO.FS.Stream) (c : Case) (st : Stats) : IO Stats := do
     loop h { c with memRegs := key :: c.memRegs } st
   | "stages" :: _ :: n :: _ => loop h { c with stages := c.stages.push n.toNat! } st
   | "error" :: rest => loop h { c with err := some (" ".intercalate rest) } st
-  | "info" :: rest => loop h { c with latches := (kvOf rest "latches").toNat! } st
+  | "info" :: rest =>
+    let lm := kvOf rest "lags"; let ld := kvOf rest "dlags"
+    loop h { c with latches := (kvOf rest "latches").toNat!, lagsMeasured := (if lm == "" then "-" else lm), lagsDerived := (if ld == "" then "-" else ld) } st
   | "hn" :: rest => match parseGNode rest with
     | some (id, n) => loop h { c with hn := c.hn.insert id n } st
     | none => loop h c st
@@ -273,6 +309,7 @@ partial def loop (h : IO.FS.Stream) (c : Case) (st : Stats) : IO Stats := do
   | "h" :: _ :: vals => loop h { c with h := c.h.push vals.toArray } st
   | "t" :: _ :: vals => loop h { c with t := c.t.push vals.toArray } st
   | "l" :: _ :: vals => loop h { c with l := c.l.push vals.toArray } st
+  | "p" :: _ :: vals => loop h { c with p := c.p.push vals.toArray } st
   | ["end"] =>
     let st ← finishCase c st
     loop h {} st
@@ -280,4 +317,4 @@ partial def loop (h : IO.FS.Stream) (c : Case) (st : Stats) : IO Stats := do
 
 def main : IO Unit := do
   let st ← loop (← IO.getStdin) {} {}
-  IO.println s!"SUMMARY \{\"cases\":{st.cases},\"ops\":{st.ops},\"diffs\":{st.diffs},\"propfails\":{st.propfails},\"rejected_designs\":{st.errors},\"latency_checks\":{st.latChecks},\"latency_skipped\":{st.latSkipped},\"latency_any\":{st.latAny},\"cycles\":{st.cycles},\"stall_cycles\":{st.stallCycles},\"cases_with_holding_circuit\":{st.latchCases},\"hints\":{st.hints},\"twin_undefined_hinted_defined\":{st.undefRefined},\"autonomous_checked_against_lag_twin\":{st.lagChecked},\"autonomous_lag_visible\":{st.lagVisible},\"reset_edge_sampling_cases\":{st.resetEdgeCases},\"cases_enable_low_after_reset\":{st.enLowAfterReset},\"hist\":\{\"backward_retimed_registers\":{jsonOfMap st.memRegHist},\"grouped_enable_logic_in_retimed_area\":{jsonOfMap st.enRegHist},\"class\":{jsonOfMap st.cls},\"stages\":{jsonOfMap st.nHist},\"reset\":{jsonOfMap st.resetHist}}}"
+  IO.println s!"SUMMARY \{\"cases\":{st.cases},\"ops\":{st.ops},\"diffs\":{st.diffs},\"propfails\":{st.propfails},\"rejected_designs\":{st.errors},\"latency_checks\":{st.latChecks},\"latency_skipped\":{st.latSkipped},\"latency_any\":{st.latAny},\"cycles\":{st.cycles},\"stall_cycles\":{st.stallCycles},\"cases_with_holding_circuit\":{st.latchCases},\"hints\":{st.hints},\"twin_undefined_hinted_defined\":{st.undefRefined},\"autonomous_checked_against_lag_twin\":{st.lagChecked},\"autonomous_lag_visible\":{st.lagVisible},\"reset_edge_sampling_cases\":{st.resetEdgeCases},\"reset_edge_designs_checked_against_prediction\":{st.predChecked},\"counter_lags_checked_against_derivation\":{st.lagStructChecked},\"cases_enable_low_after_reset\":{st.enLowAfterReset},\"hist\":\{\"backward_retimed_registers\":{jsonOfMap st.memRegHist},\"grouped_enable_logic_in_retimed_area\":{jsonOfMap st.enRegHist},\"class\":{jsonOfMap st.cls},\"stages\":{jsonOfMap st.nHist},\"reset\":{jsonOfMap st.resetHist}}}"
